@@ -10,11 +10,13 @@ THEOREMS_TIED = ["Rustic.Props.C13.treeStreamerOnce_any_order", "Rustic.Props.C1
                  "Rustic.Props.C13.progress_needs_no_lock_across_blocking_send", "Rustic.Props.C13.lock_held_across_send_can_deadlock",
                  "Rustic.Props.C13.prune_dedup_order_independent", "Rustic.Props.C13.single_pass_dedup_depends_on_order",
                  "Rustic.Props.C13.locked_add_and_save_indexes_every_pack", "Rustic.Props.C13.unlocked_save_can_lose_pack",
-                 "Rustic.Props.C13.ok_command_lists_every_pack"]
+                 "Rustic.Props.C13.ok_command_lists_every_pack",
+                 "Rustic.Props.C13.restore_writes_independent_of_pack_layout", "Rustic.Props.C13.restore_same_for_all_pack_layouts",
+                 "Rustic.Props.C13.guard_on_other_depends_on_pack_layout"]
 
 TRUSTED = [
-    "hand-written nondeterministic models lean/Rustic/Model/Streamer.lean (TreeStreamerOnce, channel line), Model/StreamerQueue.lean (TreeStreamerOnce's consumer / loader threads and their two channels), Model/LockNet.lean (concurrent Packer::add_raw: indexer RwLock, raw_packer lock, file-writer queue), Model/IndexerLock.lean (the shared Indexer: add + due save + reset under the write lock, seen from all file writers), Model/PackerActor.lean (writers with queues / read-ahead, auto-save, command tail), Model/Prune.lean `newPlan` (PrunePlan::new, two passes) and Model/Archive.lean part 2 (packer / file writer / indexer events)",
-    "correspondence harness harness/src/c13.rs (real TreeStreamerOnce through hook verif::tree::stream_once_until_error; real backup / prune / copy / check on a MemBackend wrapped with seeded sleeps at every call, optional 20-75 ms sleeps at pack writes, slow overlapping index-file writes, one index file arriving last, failing index removals; the prune planner alone through hook verif::prune::plan_from_parts with the index files in several orders; every case runs in a child process that is killed when its time budget is over)",
+    "hand-written nondeterministic models lean/Rustic/Model/Streamer.lean (TreeStreamerOnce, channel line), Model/StreamerQueue.lean (TreeStreamerOnce's consumer / loader threads and their two channels), Model/LockNet.lean (concurrent Packer::add_raw: indexer RwLock, raw_packer lock, file-writer queue), Model/IndexerLock.lean (the shared Indexer: add + due save + reset under the write lock, seen from all file writers), Model/PackerActor.lean (writers with queues / read-ahead, auto-save, command tail), Model/Prune.lean `newPlan` (PrunePlan::new, two passes), Model/RestoreGroups.lean (restore_contents: RestoreInfo entries -> coalesced pack reads -> what each blob's writer tasks are handed; `decode` and the pack contents are parameters) and Model/Archive.lean part 2 (packer / file writer / indexer events)",
+    "correspondence harness harness/src/c13.rs (real TreeStreamerOnce through hook verif::tree::stream_once_until_error; real backup / prune / copy / check on a MemBackend wrapped with seeded sleeps at every call, optional 20-75 ms sleeps at pack writes, slow overlapping index-file writes, one index file arriving last, failing index removals; the prune planner alone through hook verif::prune::plan_from_parts with the index files in several orders; the real restore (ls node streamer, prepare_restore, restore, LocalDestination in a temp dir) into an empty directory and over an existing tree written by the harness; every case runs in a child process that is killed when its time budget is over)",
     "crossbeam channels, pariter read-ahead / ordered parallel_map and rayon behave as documented (FIFO, ordered results); real thread interleavings are sampled by seeded delays, not enumerated",
 ]
 ASSUMPTIONS = [
@@ -23,6 +25,7 @@ ASSUMPTIONS = [
     "tree loads that fail end the stream with an error (outside the streamer model); the `chk` op covers that path on the real code",
     "the thread-level models (StreamerQueue, LockNet) are tied to the code by reading it (which send / lock acquisition blocks, what is held meanwhile) and by the termination oracle on the shapes their counter-models name (> 1100 outstanding tree requests; >= 45 one-blob packs repacked concurrently with fast_repack under pack-write latency) - not by a step-by-step correspondence; std::sync::RwLock is modelled as writer-preferring",
     "the index-file latency patterns are conditions with time-outs (1st index write returns when a 2nd has begun or after t1 = 1.5-2.5 s; the 2nd when the 1st is stored and k more packs were written or after t2; the late index file is read 40 ms after all others): they force the overlap / arrival order a slow backend would produce, when the code allows it; IndexerLock / newPlan are tied to the code by reading it and by these oracles (every pack in storage listed by the stored index files after a > 50,000-blob command; same plan and same outcome for both arrival orders), not step by step",
+    "restore: Model/RestoreGroups.lean is tied to restore_contents by reading it and by the `rest` oracles (identical restored bytes for every pack-size setting, equal to the source), not step by step; its hypothesis `Faithful` (the bytes read back from an existing file at a location that matched are the blob's bytes) holds when nobody else modifies the destination during the restore; the destination is a local temp directory with whole-second mtimes",
     "termination is observed as `answer within the watchdog` (20 s + size allowance per command sequence, again for the oracles); after 3 timeouts in one run the remaining cases are reported `not-run` instead of executed",
 ]
 RULE = ("ops from harness/src/c13.rs, one splitmix64 PRNG (VERIF_SEED): `stream` = random DAG forests of 1-14 trees (0-3 sub-trees each, shared), 0-3 roots (duplicates), read latencies 0-3 ms by seed; "
@@ -33,12 +36,13 @@ RULE = ("ops from harness/src/c13.rs, one splitmix64 PRNG (VERIF_SEED): `stream`
         "Repack cases (quick 2, thorough 12; also 1 in 6 random run tokens): 5th run-token field `r<ms>` = every pack write sleeps ms..2.5 ms milliseconds and the prune repacks EVERY pack with fast_repack (Packer::add_raw from the rayon workers); sources with 45-80 shared chunks, one blob per pack, pools of >= 2 workers. "
         "`copy` (quick 4, thorough 40) = backup, then copy of the snapshot into a fresh repository with the pack sizes swapped, under the run variations; oracles on the target. "
         "`order` (quick 6, thorough 60) = backup; prune ignoring the snapshot (all packs marked); prune that recovers them while the removal of the old index file fails => a pack regular in one index file and to-delete in another; then on copies: planner hook with the index files del-first / reg-first / shuffled (same decisions, no error) and real prune_plan + prune with either file arriving LAST (both succeed, per-run oracles, same referenced set). "
+        "`rest` (quick 12, thorough 150) = 2-6 files (some in a sub-directory) of 1-7 blocks drawn from 3-9 labels (64-byte chunks, blocks shared between files and repeated inside a file, optional short tail), backed up into 3 fresh repositories (default packs undelayed; one blob per pack; data pack size 200 B / 400 B / 5 kB) and RESTORED from each into an empty directory and over an existing tree in which every file is, by a 10-way draw, absent / same bytes with another mtime / same size with some blocks replaced (mtime other or equal) / accepted by size + mtime with the same or with other bytes / of another size, plus now and then a file the snapshot lacks; verify_existing 1 in 3; oracles: both directories identical for all settings, every source file restored with the source's bytes (a file trusted by size + mtime keeps its bytes); model line: number / bytes of the files and how many are trusted with other content. "
         "`big` (quick 1 backup; thorough 2 backup + 1 prune repack-all + 1 copy) = 25,050-26,000 directories with one small unique file each (> 50,000 blobs), one blob per pack, so an index file is auto-saved mid-run while data and tree packer both flush packs; index writes slow and overlapping when the code allows (t1, t2 in 1.5-2.5 s, k in 3-8); oracles: packs in storage = packs listed by the stored index files, check clean, n + 3 trees and n data blobs referenced. "
         "Every run token / stream seed carries a rayon pool field (0 = default, n = ThreadPool::install of n workers, g<n> = child process with RAYON_NUM_THREADS=n pinned to n CPUs). Non-trivial = a stream that yields >= 2 trees or any run/hist/chk op; distinct by hash of (op, observation).")
 EXPLANATION = ("Theorems (all schedules of the models): TreeStreamerOnce yields exactly the reachable trees once each, ends iff nothing is outstanding (no deadlock, no early end), terminates within |reachable| steps; "
                "every written pack is indexed at finalize; stored key set independent of flush points and delays; root tree id independent of the index contents; the channel line — and the archiver's whole channel network (any DAG of bounded buffers) — always has an enabled stage and a "
-               "decreasing measure. Thread level: with the unbounded request queue the consumer / loader threads of TreeStreamerOnce always have an enabled step; a stuck state is always a consumer facing a full bounded queue; EVERY bounded queue deadlocks on a directory (or root list) wider than queue + loaders + result queue (counter-model). Concurrent Packer::add_raw (fast repack): progress for every schedule of the code as it is; in general progress iff no indexer guard is held while blocked; keeping the read guard across the blocking send deadlocks (counter-model). Index files: the two-pass de-duplication of PrunePlan::new keeps the same packs with the same delete mark for EVERY permutation of the index files (a single pass does not: counter-model, check_existing_packs fails for one order); with the indexer's write lock held across add + due save + reset every pack added by any writer is in the current or a saved index file at every point of every schedule (saving a copy outside the lock and resetting later loses packs: counter-model), and in the full actor model a command that returns Ok has every sent pack stored and listed. Correspondence/oracles on the real code: yielded tree set = model's under seeded read latencies; repeated runs give identical tree id and referenced blob set, terminate "
-               "(watchdog), leave storage = index, pass check --read-data and read back as the source.")
+               "decreasing measure. Thread level: with the unbounded request queue the consumer / loader threads of TreeStreamerOnce always have an enabled step; a stuck state is always a consumer facing a full bounded queue; EVERY bounded queue deadlocks on a directory (or root list) wider than queue + loaders + result queue (counter-model). Concurrent Packer::add_raw (fast repack): progress for every schedule of the code as it is; in general progress iff no indexer guard is held while blocked; keeping the read guard across the blocking send deadlocks (counter-model). Index files: the two-pass de-duplication of PrunePlan::new keeps the same packs with the same delete mark for EVERY permutation of the index files (a single pass does not: counter-model, check_existing_packs fails for one order); with the indexer's write lock held across add + due save + reset every pack added by any writer is in the current or a saved index file at every point of every schedule (saving a copy outside the lock and resetting later loses packs: counter-model), and in the full actor model a command that returns Ok has every sent pack stored and listed. Restore: for every list of RestoreInfo entries, every pack content and every coalescing relation that only joins a group with an entry behind it (can_coalesce for any hole size / read limit), the writes restore_contents hands to its writer tasks are, entry by entry, the non-matching file locations with the content of THAT blob - no pack boundary enters (two layouts of the same blobs give the same writes); with the from_file guard on the other operand the result depends on whether two blobs share a pack (counter-model). Correspondence/oracles on the real code: yielded tree set = model's under seeded read latencies; repeated runs give identical tree id and referenced blob set, terminate "
+               "(watchdog), leave storage = index, pass check --read-data and read back as the source; the same snapshot restored from repositories that differ only in the pack-size setting gives identical bytes, into an empty directory and over a partly matching one.")
 
 
 def nontrivial(op, obs):
